@@ -430,11 +430,27 @@ def index_scale_seen(chk, emit, unit):
         if x["k"] == "binop" and x["op"] == "=":
             l = emit.e(emit.strip(x["lhs"]))
             if l is not None and l.get("name") == "rm_info":
-                return ([], [f for f in facts if f in (("shift",), ("idx",))])
+                return ([], [f for f in facts if f in (("shift",), ("idx",), ("noidx",))])
         return None
 
+    def plain_idx_test(x):
+        if x is not None and x["k"] == "binop" and x["op"] == "&":
+            a = emit.e(emit.strip(x["lhs"]))
+            return a is not None and a.get("name") == "rm_info" and (emit.e(emit.strip(x["rhs"])) or {}).get("cvn") == "kX86MemInfo_Index"
+        return False
+
     def edge_fx(b, si, atom, holds, facts):
-        if holds and idx_test(emit.e(atom)) == "true":
+        x = emit.e(atom)
+        if plain_idx_test(x):
+            # the same test of the same (unchanged) rm_info is decided the same way on one path
+            if holds and ("noidx",) in facts:
+                return "INFEASIBLE"
+            if not holds and ("idx",) in facts:
+                return "INFEASIBLE"
+            return [("idx",)] if holds else [("noidx",)]
+        if holds and idx_test(x) == "true":
+            if ("noidx",) in facts:
+                return "INFEASIBLE"
             return [("idx",)]
         return ()
     rel = Relational(emit, elem_fx, edge_fx)
